@@ -243,6 +243,41 @@ def asyncstack_tie(chk):
     st["distinct_programs_replayed"] = len(distinct)
 
 
+def fault_probes_across_configurations(chk):
+    """the fault probes of C02 / C04 (k-th connect throws under retry_when / repeat_effect_until; throwing stop-callback
+    registration in stop_on_request) built in the four C++17 configurations: which channel completes, and every counter, must be
+    identical to the release build's (a throw on a path that is noexcept only in one configuration ends in std::terminate there)"""
+    st = chk.cov.setdefault("fault_probes", {"programs": 0, "configurations": 0, "lines_equal": 0})
+    for d in ("k3_c02_probe", "k3_c04_probe"):
+        base = None
+        for cfg in ("plain17", "vis17", "dbg17", "dbgvis17"):
+            exe, err = vlib.build_driver(d, cfg)
+            if err:
+                rp = chk.replay_file("faultprobe_build_%s_%s" % (d, cfg), {"kind": "build-failure", "driver": d, "configuration": cfg, "error": err[-3000:]})
+                chk.violation("faultprobe/%s/%s/build" % (d, cfg), rp, no_input=True, text="%s does not compile in configuration %s" % (d, cfg))
+                continue
+            rc, out = vlib.sh([exe], timeout=120)
+            st["configurations"] += 1
+            chk.count(("faultprobe", d, cfg), True)
+            if cfg == "plain17":
+                base = (rc, out)
+                st["programs"] += 1
+                continue
+            if base is not None and (rc, out) == base:
+                st["lines_equal"] += len(out.splitlines())
+                chk.cov["traces_validated_against_impl"] += 1
+                continue
+            bl, ol = (base[1].splitlines() if base else []), out.splitlines()
+            first = next((i for i in range(max(len(bl), len(ol))) if i >= len(bl) or i >= len(ol) or bl[i] != ol[i]), 0)
+            rp = chk.replay_file("faultprobe_%s_%s" % (d, cfg), {"kind": "configuration-differential", "driver": d, "configuration": cfg,
+                                 "flags": vlib.CONFIGS[cfg][1], "release": {"rc": base[0] if base else None, "line": bl[first] if first < len(bl) else "<none>"},
+                                 "this": {"rc": rc, "line": ol[first] if first < len(ol) else "<none: the program ended>", "tail": out[-600:]},
+                                 "replay": exe})
+            chk.violation("faultprobe/%s/%s" % (d, cfg), rp,
+                          text="%s behaves differently in configuration %s (rc=%s) than in the release build: first difference at probe line %d: %s"
+                               % (d, cfg, rc, first + 1, (ol[first] if first < len(ol) else "<program ended>")[:160]))
+
+
 def run(chk, replay=None):
     chk.cov["rule"] = ("(1) the K2 programs (generated sender expressions x event scripts) compiled in each of the 8 configurations "
                        "{C++17,C++20} x {NDEBUG, debug+async stacks} x {continuation visitation 0,1}; every configuration's trace must equal the "
@@ -277,6 +312,7 @@ def run(chk, replay=None):
         k2.run_k2(chk, n_tus=2 if quick else 12, cases_per_tu=8, scripts_per_case=12 if quick else 40, cfg=cfg, tag="k2" + cfg)
         per[cfg] = chk.cov["traces_validated_against_impl"] - before
     asyncstack_tie(chk)
+    fault_probes_across_configurations(chk)
     # coroutine path under schedule control, assertions + async stacks on: the task stop-request thunk (all schedules with <= 2
     # pre-emptions): an unbalanced root/frame trips the library's own assertions; the trace must equal the SrThunk model's
     import k1
